@@ -31,6 +31,8 @@ type ConvCase struct {
 	Stats bool `json:"stats,omitempty"`
 	// TickMs: virtual time that passes at every quiescent point of the schedule, so that timers inside goat fire
 	TickMs int `json:"tick_ms,omitempty"`
+	// DeadCalls: calls made beforehand on every connection with an already cancelled context
+	DeadCalls int `json:"dead_calls,omitempty"`
 }
 
 func (c ConvCase) key() string {
@@ -60,6 +62,7 @@ func genConvCase(t *rapid.T, maxConvs int, kinds []int, o kit.GenOpts, topoKinds
 	c.Intercept = rapid.IntRange(0, 3).Draw(t, "intercept") == 0
 	c.Stats = rapid.IntRange(0, 3).Draw(t, "stats") == 0
 	c.TickMs = rapid.SampledFrom([]int{0, 0, 0, 1, 20, 2000}).Draw(t, "tick_ms")
+	c.DeadCalls = rapid.SampledFrom([]int{0, 0, 0, 1, 2}).Draw(t, "dead_calls")
 	if c.GateA || c.GateB {
 		c.Tape = rapid.SliceOfN(rapid.Byte(), 0, 64).Draw(t, "tape")
 	}
@@ -67,7 +70,7 @@ func genConvCase(t *rapid.T, maxConvs int, kinds []int, o kit.GenOpts, topoKinds
 }
 
 func (c ConvCase) opts() kit.RunOpts {
-	o := kit.RunOpts{Topo: c.Topo, GateA: c.GateA, GateB: c.GateB, Tape: c.Tape, Tick: time.Duration(c.TickMs) * time.Millisecond}
+	o := kit.RunOpts{Topo: c.Topo, GateA: c.GateA, GateB: c.GateB, Tape: c.Tape, Tick: time.Duration(c.TickMs) * time.Millisecond, DeadCalls: c.DeadCalls}
 	if c.Stats {
 		o.SOpts = append(o.SOpts, goat.StatsHandler(nopStats{}))
 		o.DOpts = append(o.DOpts, goat.WithStatsHandler(nopStats{}))
@@ -95,7 +98,7 @@ func (c ConvCase) opts() kit.RunOpts {
 
 // convLabels computes the common labels of a conv case.
 func convLabels(c ConvCase, tap []kit.Ev) (labels []string, interleaved bool, maxMsgs int, concurrent bool) {
-	labels = append(labels, "topo="+c.Topo.Kind, fmt.Sprintf("ser=%v", c.Topo.Serialize), fmt.Sprintf("gated=%v", c.GateA || c.GateB), fmt.Sprintf("intercept=%v", c.Intercept), fmt.Sprintf("stats=%v", c.Stats), fmt.Sprintf("time_passes=%v", c.TickMs > 0))
+	labels = append(labels, "topo="+c.Topo.Kind, fmt.Sprintf("ser=%v", c.Topo.Serialize), fmt.Sprintf("gated=%v", c.GateA || c.GateB), fmt.Sprintf("intercept=%v", c.Intercept), fmt.Sprintf("stats=%v", c.Stats), fmt.Sprintf("time_passes=%v", c.TickMs > 0), fmt.Sprintf("dead_calls_before=%v", c.DeadCalls > 0))
 	nstreams := 0
 	for _, cv := range c.Convs {
 		labels = append(labels, "kind="+kit.KindNames[cv.Kind])
